@@ -115,3 +115,56 @@ Fixpoint pref_walk_ok (ix : indexer) (h : hay) (test : list N -> bool) (fuel : n
       | Err _ => true
       end
   end.
+
+(* ---- the invariant of the optimizer proofs (Proofs/Opt*.v): [ng] counts the capture groups of a node; [qok]: a
+   loop's minimum does not exceed its maximum, its group range has the size of the number of groups of its body, and
+   the body of a one-character loop is a one-instruction leaf.  Evaluated by the driver on every IR. ---- *)
+Fixpoint ng (n : node) : nat :=
+  match n with
+  | NCat l => list_sum (map ng l)
+  | NAlt a b => ng a + ng b
+  | NCaptureGroup _ c _ => S (ng c)
+  | NLookaround _ _ _ _ c => ng c
+  | NLoop b _ _ _ _ _ => ng b
+  | _ => 0
+  end.
+
+Fixpoint qok (n : node) : bool :=
+  match n with
+  | NCat l => forallb qok l
+  | NAlt a b => qok a && qok b
+  | NCaptureGroup _ c _ => qok c
+  | NLookaround _ _ _ _ c => qok c
+  | NLoop b mn mx _ egs ege => qok b && (mn <=? max_val mx) && (ege - egs =? ng b)%nat
+  | NLoop1CharBody b mn mx _ => qok b && (mn <=? max_val mx) && l1_body_ok b
+  | NCharSet cs => (length cs <=? 4)%nat
+  | NBracket b => cps_wf (br_ivs b)
+  | _ => true
+  end.
+
+
+(* ---- the text hypotheses of the optimizer theorems (Proofs/OptTop.v text_ok), as a check over the positions of a
+   haystack: the element read at a position is a code point; an element below 128 is the byte at that position and a
+   byte below 128 is the element; an element from 128 up starts (ends) with a byte from 128 up and conversely. ---- *)
+Definition byte_res_eqb (r : R (option (N * nat))) (c : N) (q : nat) : bool :=
+  match r with Ok (Some (b, q1)) => (b =? c) && (q1 =? q)%nat | _ => false end.
+
+Definition text_pos_ok (ix : indexer) (h : hay) (fwd : bool) (q : nat) : bool :=
+  (match cnext ix fwd h q with
+   | Ok (Some (c, q2)) =>
+       (c <=? CODE_POINT_MAX) &&
+       (if c <? 128 then byte_res_eqb (next_byte fwd h q) c q2
+        else match next_byte fwd h q with Ok (Some (b, _)) => 128 <=? b | _ => false end)
+   | Ok None => match next_byte fwd h q with Ok None => true | _ => false end
+   | Err _ => true
+   end) &&
+  (match next_byte fwd h q with
+   | Ok (Some (b, q1)) =>
+       if b <? 128 then byte_res_eqb (cnext ix fwd h q) b q1
+       else match cnext ix fwd h q with Ok (Some (c, _)) => 128 <=? c | _ => false end
+   | Ok None => match cnext ix fwd h q with Ok None => true | _ => false end
+   | Err _ => true
+   end).
+
+Definition text_ok_b (ix : indexer) (h : hay) : bool :=
+  forallb (fun q => text_pos_ok ix h true q && text_pos_ok ix h false q) (seq 0 (S (length h))).
